@@ -20,6 +20,18 @@ class Ctx:
         self.module = tuple(module)
         self.probe = P.Probe(facts, None, self.module)
         self.index = {}
+        self.env = {}  # value-level `let`s of the parser function (closures, constants) the maps may refer to
+
+    def bind_lets(self, lets):
+        """`let name = <value expression>;` statements standing in front of the parser expression"""
+        for st in lets or []:
+            if st.get("k") != "let" or st.get("init") is None or st["pat"].get("k") not in ("ident", "typed"):
+                raise P.NoEval("statement in front of the parser expression")
+            b_ = self.probe.pmatch(st["pat"], self.probe.ev(st["init"], self.env), self.env)
+            if b_ is None:
+                raise P.NoEval("let pattern")
+            self.env.update(b_)
+        return self
 
     def leaf(self, node):
         raise P.NoEval("no text given for %s" % node["t"])
@@ -39,7 +51,7 @@ class Ctx:
 
     def fn(self, f):
         pr = self.probe
-        return pr.ev(f, {})
+        return pr.ev(f, self.env)
 
 
 def value(node, ctx, depth=0):
